@@ -33,6 +33,10 @@ UNIONS = [
     ("tvar_list", "List[CT]"),
     ("uuid_date_n", "Union[UUID, datetime.date, None]"), ("td_list", "Union[TDict, List[str]]"),
     ("nt_dict", "Union[NT, Dict[str, int]]"), ("fset_i", "Union[FrozenSet[int], int]"),
+    ("uuid_i", "Union[UUID, int]"), ("dec_s", "Union[Decimal, str]"), ("seq_s", "Union[Sequence[str], str]"),
+    ("path_i", "Union[PurePosixPath, int]"), ("tvar_s", "Union[Tuple[str, ...], str]"), ("ip_f", "Union[IPv4Address, float]"),
+    ("tfix_opt", "Tuple[int, Optional[int]]"), ("tvar_opt", "Tuple[Optional[int], ...]"), ("lit_01", "Literal[0, 1]"),
+    ("u_lit_s", "Union[Literal[1, 2], str]"),
 ]
 LITERALS = [
     ("lit_mixed", "Literal['a', 2, None]"), ("lit_bool", "Literal[True, 'x']"), ("lit_bytes", "Literal[b'x', 'y']"),
